@@ -15,7 +15,7 @@ Lemma to_zyx_eq x y z : is32 x -> is32 y -> is32 z ->
   to_zyx (x, y, z) = Ok (be32_bytes (off32 z) ++ be32_bytes (off32 y) ++ be32_bytes (off32 x)).
 Proof.
   unfold is32; change (2^31) with 2147483648. intros Hx Hy Hz.
-  unfold to_zyx, g_Point3d_ToZYXBytes, px, py, pz, fst, snd.
+  unfold to_zyx, r_Point3d_ToZYXBytes, px, py, pz, fst, snd.
   assert (E : forall v, -2147483648 <= v < 2147483648 -> wU 32 (wS 64 (wS 64 v - -2147483648)) = off32 v).
   { intros v Hv. unfold wU, wS, off32. 
     change (2 ^ 32) with 4294967296. change (2 ^ (64 - 1)) with 9223372036854775808.
@@ -99,7 +99,7 @@ Proof.
   eexists. split; [apply to_zyx_eq; assumption|].
   split; [reflexivity|]. split.
   { repeat (apply Forall_app; split); apply be32_bytes_range. }
-  unfold from_zyx, g_Point3d_FromZYXBytes.
+  unfold from_zyx, r_Point3d_FromZYXBytes.
   destruct (bget_be32_app3 (off32 z) (off32 y) (off32 x)) as (E1 & E2 & E3); try (apply off32_range; assumption).
   cbv zeta in E1, E2, E3. rewrite E1, E2, E3.
   change (negb (Z.of_nat (length (be32_bytes (off32 z) ++ be32_bytes (off32 y) ++ be32_bytes (off32 x))) =? 12)) with false.
@@ -208,10 +208,10 @@ Proof.
 Qed.
 
 Lemma encode_eq x y z : is32 x -> is32 y -> is32 z ->
-  g_EncodeBlockIndex x y z = (fld z * 2097152 + fld y) * 2097152 + fld x.
+  r_EncodeBlockIndex x y z = (fld z * 2097152 + fld y) * 2097152 + fld x.
 Proof.
   intros Hx Hy Hz. pose proof (fld_range x). pose proof (fld_range y). pose proof (fld_range z).
-  cbv beta iota zeta delta [g_EncodeBlockIndex].
+  cbv beta iota zeta delta [r_EncodeBlockIndex].
   destruct (Z.ltb_spec z 0) as [Nz|Pz]; cbv beta iota zeta.
   1: rewrite (enc_neg 0 z) by (assumption || lia || reflexivity).
   2: rewrite (enc_pos 0 z) by (assumption || lia || reflexivity).
@@ -240,9 +240,9 @@ Proof.
 Qed.
 
 Lemma decode_eq a b c : 0 <= a < 2097152 -> 0 <= b < 2097152 -> 0 <= c < 2097152 ->
-  g_DecodeBlockIndex ((a * 2097152 + b) * 2097152 + c) = (unfld c, unfld b, unfld a).
+  r_DecodeBlockIndex ((a * 2097152 + b) * 2097152 + c) = (unfld c, unfld b, unfld a).
 Proof.
-  intros Ha Hb Hc. cbv beta iota zeta delta [g_DecodeBlockIndex].
+  intros Ha Hb Hc. cbv beta iota zeta delta [r_DecodeBlockIndex].
   destruct (dec_field (a * 2097152 + b) c ltac:(lia) Hc) as (E1 & E2 & E3). cbv zeta in E1, E2, E3.
   rewrite E1, E2, E3.
   destruct (dec_field a b ltac:(lia) Hb) as (F1 & F2 & F3). cbv zeta in F1, F2, F3.
@@ -252,7 +252,7 @@ Proof.
   unfold unfld. reflexivity.
 Qed.
 
-Lemma izyx_decode_same w : g_BlockIndexToIZYXString w = g_DecodeBlockIndex w.
+Lemma izyx_decode_same w : r_BlockIndexToIZYXString w = r_DecodeBlockIndex w.
 Proof. reflexivity. Qed.
 
 Lemma unfld_fld c : is32 c -> (unfld (fld c) = c <-> in_blockindex_range c).
@@ -368,3 +368,13 @@ Proof. intros H Hx Hy Hz. apply (proj2 (blockindex_roundtrip_iff p H)). auto. Qe
 Lemma blockindex_to_izyx_l w :
   block_index_to_izyx w = to_zyx (decode_block_index w) /\ block_index_to_izyx_via_ok = true.
 Proof. split; reflexivity. Qed.
+
+(* ---- the tie to the Go source: the functions generated from it on this run are the ones the
+   model uses (any edit of a mask, shift, sign test, offset or callee breaks this) ---- *)
+Lemma source_tie :
+  g_EncodeBlockIndex = r_EncodeBlockIndex /\ g_DecodeBlockIndex = r_DecodeBlockIndex
+  /\ g_BlockIndexToIZYXString = r_BlockIndexToIZYXString
+  /\ g_BlockIndexToIZYXString_via = r_BlockIndexToIZYXString_via
+  /\ g_Point3d_ToZYXBytes = r_Point3d_ToZYXBytes /\ g_Point3d_FromZYXBytes = r_Point3d_FromZYXBytes
+  /\ g_Point3d_Chunk = r_Point3d_Chunk.
+Proof. repeat split; reflexivity. Qed.
